@@ -188,8 +188,11 @@ func c20Cases_() []limitCase {
 		{"3000000-parentheses", "either", "1\n", func() string {
 			return "BEGIN { print 'marker'; print " + rep("(", 3000000) + "1" + rep(")", 3000000) + " }"
 		}},
-		{"150000-parentheses", "ok", "1\n", func() string {
+		{"150000-parentheses", "either", "1\n", func() string {
 			return "BEGIN { print 'marker'; print " + rep("(", 150000) + "1" + rep(")", 150000) + " }"
+		}},
+		{"3000-parentheses", "ok", "1\n", func() string {
+			return "BEGIN { print 'marker'; print " + rep("(", 3000) + "1" + rep(")", 3000) + " }"
 		}},
 		{"3000000-prefix-not", "either", "", func() string { return "BEGIN { print 'marker'; print " + rep("!", 3000000) + "1 }" }},
 		{"3000000-array-brackets", "either", "", func() string { return "BEGIN { print 'marker'; x = " + rep("[", 3000000) + rep("]", 3000000) + " }" }},
